@@ -37,7 +37,7 @@ HEADER = ('From PK Require Import Conc.InterleaveCases.\nFrom Coq Require Import
 TRACKED = ('_client_identity', '_protocol_version', '_attribute_policy', '_data_session', '_id_placeholder', 'is_asynchronous')
 USERS = [('alice', 101), ('bob', 202), ('carol', 303), ('dave', 404)]
 VERSIONS = [(1, 0), (1, 1), (1, 2), (1, 4), (2, 0)]
-CODES = {'ITEM_NOT_FOUND': 1, 'PERMISSION_DENIED': 2, 'OPERATION_NOT_SUPPORTED': 3}
+CODES = {'ITEM_NOT_FOUND': 1, 'PERMISSION_DENIED': 2, 'OPERATION_NOT_SUPPORTED': 3, 'ILLEGAL_OPERATION': 4}
 OPC = {'create': 1, 'get': 10, 'attrlist': 12, 'activate': 18, 'destroy': 20, 'discover': 30, 'query': 24}
 OPC['getstate'] = 11
 PUBLIC = -1          # owner code of objects stored under the ALLOW_ALL operation policy 'open' (Interleave.v PUBLIC)
@@ -249,6 +249,13 @@ def build_items(spec):
             out.append(kdrv.discover_versions())
         elif k == 'query':
             out.append(kdrv.query(FNSETS[op[1]]))
+        elif k == 'revoke':
+            out.append(kdrv.revoke(None if op[1] is None else str(op[1])))
+        elif k == 'encrypt':
+            out.append(kdrv.encrypt(None if op[1] is None else str(op[1]),
+                                    params=kdrv.crypto_params(block_cipher_mode=enums.BlockCipherMode.CBC, padding_method=enums.PaddingMethod.PKCS5,
+                                                              cryptographic_algorithm=enums.CryptographicAlgorithm.AES),
+                                    data=b'sixteen byte msg', iv=b'\x01' * 16))
         elif k == 'getstate':
             out.append(kdrv.get_attributes(None if op[1] is None else str(op[1]), ['Name', 'State']))
     return out
@@ -270,7 +277,7 @@ def coq_req(version, spec):
             ops.append('(QQuery %s)' % cp.boolean(QF.QUERY_OPERATIONS in FNSETS[op[1]]))
         else:
             ops.append('(%s %s)' % ({'get': 'QGet', 'activate': 'QActivate', 'destroy': 'QDestroy', 'attrlist': 'QAttrList',
-                                     'getstate': 'QGetState'}[k], coq_opt(op[1])))
+                                     'getstate': 'QGetState', 'revoke': 'QRevoke', 'encrypt': 'QEncrypt'}[k], coq_opt(op[1])))
     return '(mkReq %s [%s])' % (cp.z(version[0] * 10 + version[1]), '; '.join(ops))
 
 
@@ -314,7 +321,8 @@ def gen_queue(rng, n_req, known_uids, max_uid, shared=()):
         if shared and c < 0.30:
             u = rng.choice(list(shared))
             q.append(rng.choice([[('getstate', u)], [('getstate', u)], [('activate', u)], [('getstate', u), ('activate', u)],
-                                 [('activate', u), ('getstate', u)], [('destroy', u)]]))
+                                 [('activate', u), ('getstate', u)], [('destroy', u)], [('encrypt', u)], [('encrypt', u)],
+                                 [('revoke', u)], [('activate', u), ('encrypt', u)], [('encrypt', u), ('getstate', u)]]))
             continue
         c = rng.random()
 
@@ -549,7 +557,7 @@ def concurrent_run(ctx, name, rng, n_clients, n_req, with_error_responses=True, 
                 w = dict(desc, client=t, request=i, spec=spec, response=obs)
                 if sp[0] == 'create' and o[1] == 0:
                     last_created = o[2]
-                if sp[0] in ('get', 'attrlist', 'activate', 'destroy', 'getstate'):
+                if sp[0] in ('get', 'attrlist', 'activate', 'destroy', 'getstate', 'revoke', 'encrypt'):
                     target = sp[1] if sp[1] is not None else last_created
                     if o[1] == 0 and o[2] in owner and not allowed(owner[o[2]], me, gcodes[t]):
                         ctx.violation({'class': 'identity-crossed', 'op': sp[0]}, w,
@@ -1156,6 +1164,11 @@ def run(ctx):
     G_q = [[('getstate', 'S2')], [('get', 'S2')], [('getstate', 'S2')], [('get', 'S0')]]
     rmr.append(('grp0', [(1, 2)] * 4, [G_q] * 4, [1, 2, 1, 3, 0, 2, 3, 1, 0, 2, 1, 3, 0, 2, 3, 0], [0, 1, 0, 2]))
     rmr.append(('grp1', [(1, 2), (1, 4), (1, 2)], [G_q] * 3, [1, 2, 0, 1, 2, 0, 2, 1, 0, 2, 1, 0], [2, 1, 0]))
+    # cross-identity histories with cryptographic use of a shared key: use, change by the OTHER identity, use again
+    X_a = [[('activate', 'S0')], [('encrypt', 'S0')], [('revoke', 'S0')], [('getstate', 'S0')], [('destroy', 'S0')], [('encrypt', 'S2')]]
+    X_b = [[('encrypt', 'S0')], [('encrypt', 'S0')], [('encrypt', 'S0')], [('getstate', 'S0')], [('encrypt', 'S0')], [('encrypt', 'S2')]]
+    rmr.append(('use0', [(1, 2), (1, 4)], [X_a, X_b], [1, 0, 1, 0, 1, 0, 1, 0, 1, 0, 1, 0], [0, 0]))
+    rmr.append(('use1', [(1, 4), (2, 0), (1, 2)], [X_b, X_a, X_b], [0, 2, 1, 0, 2, 1, 0, 2, 1, 0, 2, 1, 0, 2, 1, 0, 2, 1], [1, 0, 1]))
     for plan in rmr:
         nm, vs, qs, order = plan[:4]
         c, m = concurrent_run(ctx, nm, ctx.subrng(nm), len(vs), 0, fixed=(vs, qs) + ((plan[4],) if len(plan) > 4 else ()), sequential=order)
